@@ -65,6 +65,7 @@ structure MState where
   imPrev : MemMap := {}
   lastOpcode : Nat := 0
   lastPage : Nat := 0
+  lastFrame : Nat := 0
   lastProbes : List Nat := []
   lastPreTables : List Word := []
 
@@ -179,6 +180,27 @@ def tableFrames (m : PMem) (p4 : Word) : List Word :=
   let l2 := (children 3 l3).take cap
   let l1 := (children 2 l2).take cap
   p4 :: (l3 ++ l2 ++ l1)
+
+/-- The page tables of the hierarchy with their index paths (root = `[]`), breadth first, capped like
+`tableFrames`. -/
+def tablesWithPaths (m : PMem) (p4 : Word) : List (List Nat × Word) :=
+  let cap := 512
+  let children (lvl : Nat) (ts : List (List Nat × Word)) : List (List Nat × Word) :=
+    ts.foldl (fun acc (q, t) =>
+      if acc.length ≥ cap then acc
+      else acc ++ ((List.range 512).filterMap fun i =>
+        match slotOf lvl (m t i) with | .table t' => some (q ++ [i], t') | _ => none)) []
+  let l3 := (children 4 [([], p4)]).take cap
+  let l2 := (children 3 l3).take cap
+  let l1 := (children 2 l2).take cap
+  ([], p4) :: (l3 ++ l2 ++ l1)
+
+/-- page number of a canonical address in rank space; table number and page span of an index path -/
+def pnD (va : Nat) : Nat := va % 2^48 / 4096
+def tnumD (q : List Nat) : Nat := q.foldl (fun a i => a * 512 + i) 0
+def spanD (q : List Nat) : Nat × Nat :=
+  let w := 512 ^ (4 - q.length)
+  (tnumD q * w, tnumD q * w + w - 1)
 
 def outcomeOfMapCode (c : Nat) : DocOutcome :=
   if c == 1 then .allocFailed else if c == 2 then .parentHuge else if c == 3 then .alreadyMapped else .someError
@@ -422,7 +444,26 @@ def handleMapper : SHandler MState := fun _cfg op a impl st =>
             (let postTables := tableFrames imPost p4
              obs.deallocs.all (fun f => !postTables.contains (w f))) &&
             -- every change is the unlinking (zeroing) of a parent entry
-            obs.changes.all (fun (_, _, v) => v == 0)
+            obs.changes.all (fun (_, _, v) => v == 0) &&
+            -- range clauses: freed tables overlap the range, tables that do not overlap it are untouched, no
+            -- empty table wholly inside the range is left (recursive mapper: outside the recursive slot),
+            -- and repeating the same clean-up frees and changes nothing
+            (let rsN := if opcode == 9 then 0 else page
+             let reN := if opcode == 9 then 0xfffffffffffff000 else frame
+             let nonEmpty := rsN ≤ reN
+             let lo := pnD rsN
+             let hi := pnD reN
+             let overlaps (q : List Nat) : Bool := nonEmpty && (spanD q).1 ≤ hi && lo ≤ (spanD q).2
+             let inside (q : List Nat) : Bool := nonEmpty && lo ≤ (spanD q).1 && (spanD q).2 ≤ hi
+             let pathsPre := tablesWithPaths imPre p4
+             let pathOf (f : Word) : Option (List Nat) := (pathsPre.find? (fun x => x.2 == f)).map (·.1)
+             obs.deallocs.all (fun f => match pathOf (w f) with | some q => overlaps q | none => false) &&
+             obs.changes.all (fun (f, _, _) => match pathOf (w f) with | some q => q.isEmpty || overlaps q | none => false) &&
+             (tablesWithPaths imPost p4).all (fun (q, g) =>
+               q.isEmpty || !inside q || (k.recursive && q.head? == some st.rIdx) ||
+                 (List.range 512).any (fun j => imPost g j != 0#64)) &&
+             (if st.lastOpcode == opcode && st.lastPage == page && st.lastFrame == frame then
+                obs.deallocs.isEmpty && obs.changes.isEmpty else true))
         -- C11 (token half): covered by the `ok <page>` comparison in c01
         let ok :=
           ((st.mask &&& 1 == 0) || c01) && ((st.mask &&& 2 == 0) || c02) &&
@@ -432,7 +473,7 @@ def handleMapper : SHandler MState := fun _cfg op a impl st =>
           (if (st.mask &&& 4 != 0) && !c09 then "C09 " else "") ++ (if (st.mask &&& 8 != 0) && !c10 then "C10 " else "")
         some ({ model := model, oracleOk := ok, why := why },
               { st with mm := mm', im := im', abs := abs', imPrev := st.im, lastOpcode := opcode,
-                        lastPage := pageEff, lastProbes := probes, lastPreTables := preTables })
+                        lastPage := pageEff, lastFrame := frame, lastProbes := probes, lastPreTables := preTables })
     | _ => none
   | "mh_crash" =>
     -- the harness process died with a memory fault inside this mapper call: the real code dereferenced an
